@@ -120,24 +120,42 @@ func parse(byteData []byte) (*DisallowedCerts, error) {
 
 	for { // read through element list and certificate elements
 		var id uint32
-		binary.Read(bytesReader, binary.LittleEndian, &id)
+		if err := binary.Read(bytesReader, binary.LittleEndian, &id); err != nil {
+			if err == io.EOF { // no end marker: tolerated, as before
+				break
+			}
+			return nil, errors.New("SST truncated in element id")
+		}
 		if id == uint32(0) { // this is EndElementMarkerEntry, we have reached end of list
 			break
 		}
 		var format uint32
-		binary.Read(bytesReader, binary.LittleEndian, &format)
+		if err := binary.Read(bytesReader, binary.LittleEndian, &format); err != nil {
+			return nil, errors.New("SST truncated in element header")
+		}
 		var len uint32
-		binary.Read(bytesReader, binary.LittleEndian, &len)
+		if err := binary.Read(bytesReader, binary.LittleEndian, &len); err != nil {
+			return nil, errors.New("SST truncated in element header")
+		}
+		// The declared length comes from the file: never allocate or skip more
+		// than what is left of it.
+		if int64(len) > int64(bytesReader.Len()) {
+			return nil, errors.New("SST element length exceeds the remaining data")
+		}
 		if id == uint32(32) { // this is a SerializedCertificateEntry
 			if format != uint32(1) {
 				err := errors.New("SST does not use ASN1 encoding")
 				return nil, err
 			}
 			certChain := make([]byte, len)
-			binary.Read(bytesReader, binary.LittleEndian, &certChain)
+			if _, err := io.ReadFull(bytesReader, certChain); err != nil {
+				return nil, err
+			}
 			certs = append(certs, certChain)
 		} else { // this is a SerializedPropertyEntry, so skip it
-			io.CopyN(ioutil.Discard, bytesReader, int64(len)) // skip over value bytes
+			if _, err := io.CopyN(ioutil.Discard, bytesReader, int64(len)); err != nil { // skip over value bytes
+				return nil, err
+			}
 		}
 	}
 
